@@ -28,18 +28,20 @@ class ZygoteSet:
         self.procs: dict[str, subprocess.Popen] = {}
         self.info: dict[str, dict] = {}
 
-    def hashseed_of(self, cfg: str) -> str:
-        if cfg == "H0":
-            return "0"
-        if cfg == "H7":
-            return str(core.h7_value(self.seed))
-        if cfg == "HU":
-            return "424242"
+    MAX_LIVE = 7
+
+    @staticmethod
+    def hashseed_of(cfg: str) -> str:
+        if cfg.startswith("HU"):
+            return cfg[2:] or "424242"
         if cfg.startswith("H") and cfg[1:].isdigit():
             return cfg[1:]
         raise ValueError(cfg)
 
     def _start(self, cfg: str) -> subprocess.Popen:
+        if len(self.procs) >= self.MAX_LIVE:
+            victim = next(c for c in self.procs if c != "H0")
+            self._stop(victim)
         env = dict(os.environ)
         env["PYTHONHASHSEED"] = self.hashseed_of(cfg)
         env["PYTHONDONTWRITEBYTECODE"] = "1"
@@ -47,7 +49,7 @@ class ZygoteSet:
         env["VERIF_REPO"] = str(core.REPO)
         stderr = None if os.environ.get("VERIF_DEBUG") else subprocess.DEVNULL
         proc = subprocess.Popen(
-            [core.PYTHON, "-m", "simverif.zygote", self.profile, "HU" if cfg == "HU" else cfg],
+            [core.PYTHON, "-m", "simverif.zygote", self.profile, "HU" if cfg.startswith("HU") else cfg],
             stdin=subprocess.PIPE, stdout=subprocess.PIPE, stderr=stderr,
             env=env, cwd=str(core.VERIF), text=True, bufsize=1,
         )
@@ -82,6 +84,16 @@ class ZygoteSet:
         if "harness_error" in response:
             raise HarnessError(f"{fn}@{cfg}: {response['harness_error']}\n{response.get('traceback', '')}")
         return response["ok"]
+
+    def _stop(self, cfg: str) -> None:
+        proc = self.procs.pop(cfg)
+        try:
+            proc.stdin.write(json.dumps({"fn": "__exit__"}) + "\n")
+            proc.stdin.flush()
+            proc.stdin.close()
+            proc.wait(timeout=5)
+        except (OSError, subprocess.TimeoutExpired):
+            proc.kill()
 
     def close(self) -> None:
         for proc in self.procs.values():
